@@ -5,3 +5,5 @@ cd "$(dirname "$0")"
 mkdir -p .cache evidence replays
 (cd lean && lake build OrxPar driver)
 (cd harness && python3 gen_chains.py src/chains.rs 3 1 && CARGO_NET_OFFLINE=true cargo build --offline)
+# supporting search under Miri (C13, C14): pre-build; its absence is not an error of the setup
+(cd miri && CARGO_NET_OFFLINE=true MIRIFLAGS="-Zmiri-num-cpus=4" cargo +nightly miri run >/dev/null 2>&1) || echo "note: Miri battery could not be pre-built (the checks report it as unavailable)"
